@@ -722,6 +722,9 @@ impl<'a> UdpNhcRepr {
                 checksum::data(packet.payload()),
             ]);
 
+            // A computed checksum of zero is transmitted as all ones.
+            let chk_sum = if chk_sum == 0 { 0xffff } else { chk_sum };
+
             if let Some(checksum) = packet.checksum()
                 && chk_sum != checksum
             {
@@ -777,7 +780,8 @@ impl<'a> UdpNhcRepr {
                 checksum::data(packet.payload_mut()),
             ]);
 
-            packet.set_checksum(chk_sum);
+            // As for uncompressed UDP, a computed checksum of zero is transmitted as all ones.
+            packet.set_checksum(if chk_sum == 0 { 0xffff } else { chk_sum });
         }
     }
 }
